@@ -140,6 +140,8 @@ pub struct GCollateral {
     pub from: Option<GExpr>,
     pub min_amount: Option<GExpr>,
     pub r#ref: Option<GExpr>,
+    /// print the block twice
+    pub repeat: bool,
 }
 
 #[derive(Clone, Debug)]
@@ -709,18 +711,20 @@ impl<'p> Printer<'p> {
                 }
                 Block::Collateral => {
                     if let Some(c) = &tx.collateral {
-                        self.t("collateral");
-                        self.t("{");
-                        if let Some(e) = &c.from {
-                            self.field(tx, "from", e);
+                        for _ in 0..if c.repeat { 2 } else { 1 } {
+                            self.t("collateral");
+                            self.t("{");
+                            if let Some(e) = &c.from {
+                                self.field(tx, "from", e);
+                            }
+                            if let Some(e) = &c.min_amount {
+                                self.field(tx, "min_amount", e);
+                            }
+                            if let Some(e) = &c.r#ref {
+                                self.field(tx, "ref", e);
+                            }
+                            self.t("}");
                         }
-                        if let Some(e) = &c.min_amount {
-                            self.field(tx, "min_amount", e);
-                        }
-                        if let Some(e) = &c.r#ref {
-                            self.field(tx, "ref", e);
-                        }
-                        self.t("}");
                     }
                 }
                 Block::Mint(i) => self.mint_block(tx, "mint", &tx.mints[i]),
